@@ -92,6 +92,7 @@ class P(Prop):
     M = "TracklibVerif.Props.C05"
     theorems = [
         (M, "TV.C05.temporal_count", "T1: for a chronological list of instants __resampleTemporal returns, without raising, exactly one observation per instant in (tini, tfin], in order, stamped with it"),
+        (M, "TV.C05.temporal_count_any_order", "T1': on a track whose stamps never decrease, instants requested in ANY order (repetitions included) each get exactly one observation when in (tini, tfin], in request order, stamped with the instant (fix ee0419b)"),
         (M, "TV.C05.temporal_bracket", "T2: with strictly increasing stamps the sample at t uses the unique leg r>=1 with T[r-1] < t <= T[r] (positive denominator) and is P[r-1] + ((t-T[r-1])/(T[r]-T[r-1]))(P[r]-P[r-1]) in x, y, z"),
         (M, "TV.C05.temporal_number_step", "T1/T2 for a numeric step d>0: prepareTimeSampling + the loop return exactly the samples at tini+d, ..., tini+Kd with tini+Kd <= tfin < tini+(K+1)d"),
         (M, "TV.C05.spatial_samples", "T3a: __resampleSpatial returns the first fix followed by the samples at abscissas ds, ..., N ds with N ds <= L < (N+1) ds"),
@@ -104,7 +105,6 @@ class P(Prop):
     partial = []
     open_statements = [
         "IEEE rounding is outside the theorems (ordered field): float overshoot int(L/ds)*ds > L (repaired by the fix commits 6fb91a5 + 3031a33: bounded scan and abscissa clamped to L, both mirrored by the model and proved to be no-ops in exact arithmetic; their effect in floats is covered by the Float-model correspondence and the oracle), loss of the (1+1e-8) guard on epoch-scale stamps and the truncation of the millisecond field are only sampled by the transfer check",
-        "requested instants that are not in chronological order are outside T1/T2 (the code does not interpolate them: finding unsorted-request-list)",
         "stamping an output with ObsTime.readUnixTime(t) is C03's theorem; C05 theorems speak about t in seconds",
     ]
     modelled = ("tracklib/algo/interpolation.py prepareTimeSampling, __resampleTemporal, __resampleSpatial and the ALGO_LINEAR "
@@ -120,7 +120,7 @@ class P(Prop):
             "copy, then in-place edits setX/setY/setZ/scale/translate/removeObs, then resample; model and oracle see the final geometry) and an error/edge stream (ds<=0, npts=0, other mode, duplicate stamps, empty track). "
             "non-trivial = at least 3 fixes and at least 2 expected output observations")
     rel_tol = 1e-9
-    include_unsorted = True     # stream of unsorted instant lists (known finding `unsorted-request-list`)
+    include_unsorted = True     # stream of unsorted instant lists (former finding `unsorted-request-list`, repaired by ee0419b; theorem T1')
 
     # ------------------------------------------------------------------ setup
     def setup(self):
@@ -776,10 +776,6 @@ class P(Prop):
         return None
 
     def classify(self, case, impl_out, msg):
-        case = self.eff(case)
-        l = self.instants(case)
-        if case["mode"] == 2 and l is not None and any(b < a for a, b in zip(l, l[1:])):
-            return "unsorted-request-list"
         return None
 
     # ------------------------------------------------------------------ shrinking / search
